@@ -125,7 +125,10 @@ fn worker(tag: u32, rx: Receiver<Cmd>, done: Sender<()>) {
     // Held buffers in the order they were obtained (the spec's k counts from 1, oldest first).
     let mut held: Vec<Held> = Vec::new();
     for cmd in rx {
-        match cmd {
+        if matches!(cmd, Cmd::Quit) {
+            break;
+        }
+        let res = vcommon::guarded(|| match cmd {
             Cmd::Reset(p) => {
                 pool = Some(p);
             }
@@ -151,10 +154,19 @@ fn worker(tag: u32, rx: Receiver<Cmd>, done: Sender<()>) {
                 }
                 pool = None;
             }
-            Cmd::Quit => break,
+            Cmd::Quit => {}
+        });
+        if let Err(msg) = res {
+            emit_panic(&msg);
         }
         done.send(()).unwrap();
     }
+}
+
+/// A pool operation panicked in this thread: an outcome, judged by the trace spec.
+fn emit_panic(msg: &str) {
+    let m: String = msg.chars().filter(|c| c.is_ascii_alphanumeric() || *c == ' ').take(60).collect();
+    hook::emit(|| format!(r#"{{"ev":"h_panic","msg":"{m}"}}"#));
 }
 
 pub fn install_sink(out: &str) -> Arc<Mutex<std::io::BufWriter<std::fs::File>>> {
@@ -268,6 +280,7 @@ pub fn main_pool_stress() {
             let seed = rng.next_u64();
             handles.push(std::thread::spawn(move || {
                 hook::set_thread_tag(t as u32);
+                let res = vcommon::guarded(move || {
                 let mut rng = Rng::new(seed);
                 let mut held: Vec<Held> = Vec::new();
                 for _ in 0..nops {
@@ -294,13 +307,17 @@ pub fn main_pool_stress() {
                         do_drop(h);
                     }
                 }
+                });
+                if let Err(msg) = res {
+                    emit_panic(&msg);
+                }
             }));
         }
         for h in handles {
-            h.join().unwrap();
+            let _ = h.join();
         }
         hook::emit(|| r#"{"ev":"pool_drop"}"#.to_string());
-        drop(pool);
+        let _ = vcommon::guarded(move || drop(pool));
         hook::emit(|| r#"{"ev":"end"}"#.to_string());
     }
     hook::set_sink(None);
